@@ -37,3 +37,49 @@ Theorem C06_scanned_blank_row :
     = mkScan (start :: bM) (pos + Z.of_nat k :: eM) (Z.of_nat k :: tS) (Z.of_nat k :: sC) false (pos + Z.of_nat k + 1) 0 0.
 Proof. exact scan_blank_line. Qed.
 Print Assumptions C06_scanned_blank_row.
+
+(* ---- the quote law itself, on one-line paragraph documents ----
+   For EVERY line s that starts with a letter, has no line end inside and no blank at its end, every
+   configuration whose block chain reaches the block quote rule through table / code / fence only and has
+   the paragraph rule, any inline configuration and any env: parse("> " s LF) is exactly one block quote
+   whose contents are the tokens of parse(s LF) one level deeper - same maps, same inline content, same
+   children (the same inline_parse call) - between blockquote_open (map [0,1], markup ">") and
+   blockquote_close.  The block quote rule is run symbolically: marker scan, table rewrite, nested block loop
+   on the rewritten tables (every rule of the chain on the line at its offset), map patch, table restore. *)
+From MD Require Import Model.Render Model.Core Model.Inline Model.Pipeline Lemmas.ParaLine Lemmas.QuoteLine.
+
+Theorem C06_quote_nests_paragraph :
+  forall cfg rf cf lt s, line_ok s -> mem_z 13 s = false -> mem_z 0 s = false ->
+  forall rpre rpost, c_rules (p_block cfg) = rpre ++ nm_paragraph :: rpost ->
+    Forall (fun n => str_eqb n nm_paragraph = false) rpre ->
+  forall bpre bpost, c_rules (p_block cfg) = bpre ++ nm_blockquote :: bpost ->
+    Forall (fun n => n = nm_table \/ n = nm_code \/ n = nm_fence) bpre ->
+    1 < c_maxNesting (p_block cfg) ->
+    p_core cfg = [n_normalize; n_block; n_inline; n_text_join] ->
+  forall env,
+    parse cfg rf cf lt (s ++ [10]) env
+    = (do toks <- inline_parse (p_inline cfg) rf cf lt s env [];
+       Ok ([p_open; set_children (p_inl s) (Some (join_children toks)); p_close], env))
+    /\ parse cfg rf cf lt ([62; 32] ++ s ++ [10]) env
+    = (do toks <- inline_parse (p_inline cfg) rf cf lt s env [];
+       Ok (bq_open_tok :: map deeper [p_open; set_children (p_inl s) (Some (join_children toks)); p_close] ++ [bq_close_tok], env)).
+Proof. exact quote_nests_paragraph. Qed.
+Print Assumptions C06_quote_nests_paragraph.
+
+(* the nested block loop on a line that begins at an offset inside the source (what it sees once a container
+   has moved bMarks / bsCount): one paragraph with the characters from the offset on, at the container's level *)
+Theorem C06_nested_loop_on_shifted_line :
+  forall cfg rf cf pre s bs lv, line_ok s ->
+  forall rpre rpost, c_rules cfg = rpre ++ nm_paragraph :: rpost ->
+    Forall (fun n => str_eqb n nm_paragraph = false) rpre -> lv < c_maxNesting cfg ->
+  forall d st, off_line st pre s bs lv -> b_line st = 0 ->
+  exists st', tokenize cfg rf cf (S d) st 0 1 = Ok st'
+    /\ off_line st' pre s bs lv /\ b_tokens st' = b_tokens st ++ para_tokens s lv /\ b_env st' = b_env st /\ b_line st' = 1.
+Proof. exact tokenize_off_line. Qed.
+Print Assumptions C06_nested_loop_on_shifted_line.
+
+Example C06_quote_hypotheses_met :
+  line_ok [102; 111; 111; 32; 42; 98; 42]
+  /\ [nm_table; nm_code; nm_fence; nm_blockquote; nm_hr; nm_list; nm_reference; nm_html_block; nm_heading; nm_lheading; nm_paragraph]
+     = [nm_table; nm_code; nm_fence] ++ nm_blockquote :: [nm_hr; nm_list; nm_reference; nm_html_block; nm_heading; nm_lheading; nm_paragraph].
+Proof. exact quote_line_example. Qed.
